@@ -11,6 +11,9 @@ from __future__ import annotations
 
 import ast
 import itertools
+import operator
+import re
+from pathlib import PurePath
 import itertools
 from dataclasses import dataclass, field
 from typing import Iterator, Any, Callable
@@ -48,6 +51,10 @@ class _Continue(Exception):
 
 
 _uid = itertools.count(1)
+
+
+class NativeObj:
+    """Base of /verif's own models of third-party objects (parser runtime, files): attribute access and calls go to the model."""
 
 
 class AObj:
@@ -131,10 +138,18 @@ class EnumVal:
 
 
 class Env:
-    def __init__(self, mod: Mod, locals_: dict[str, Any], func: Func | None) -> None:
+    def __init__(self, mod: Mod, locals_: dict[str, Any], func: Func | None, parent: "Env | None" = None) -> None:
         self.mod = mod
         self.locals = locals_
         self.func = func
+        self.parent = parent  # enclosing function scope of a nested function / lambda
+
+
+@dataclass(eq=False)
+class Closure:
+    """A nested function together with the scope it was defined in."""
+    func: Func
+    env: Env
 
 
 BUILTIN_EXC = {"IndexError", "KeyError", "ValueError", "TypeError", "AssertionError", "StopIteration", "AttributeError", "Exception", "LookupError"}
@@ -150,6 +165,9 @@ class Interp:
         self.trace: list[str] = []
         self.caught: list[tuple[str, str, str, str]] = []  # exceptions the analysed code caught itself (diagnostics)
         self._globals: dict[tuple[str, str], Any] = {}
+        self.natives: dict[str, Any] = {}  # models of third-party callables, by qualified name
+        self.natives["functools.reduce"] = self._reduce
+        self.cur: tuple[str, int] = ("?", 0)
         self._lenient = 0  # > 0 while a message for an exception is being built (its text never matters)
 
     # ------------------------------------------------------------------ class bodies
@@ -283,6 +301,8 @@ class Interp:
 
     # ------------------------------------------------------------------ calls
     def call(self, fv: Any, args: list[Any], kwargs: dict[str, Any]) -> Any:
+        if isinstance(fv, Closure):
+            return self.call_func(fv.func, args, kwargs, parent=fv.env)
         if isinstance(fv, FuncVal):
             return self.call_func(fv.func, ([fv.bound] if fv.bound is not None else []) + args, kwargs)
         if isinstance(fv, ClassVal):
@@ -310,12 +330,24 @@ class Interp:
                 raise PyExc("StopIteration", "")
         raise Unsupported(f"call of {fv!r}")
 
+    def _reduce(self, f: Any, it: Any, *init: Any) -> Any:
+        items = list(self.iterate(it))
+        if init:
+            acc = init[0]
+        elif items:
+            acc, items = items[0], items[1:]
+        else:
+            raise PyExc("TypeError", "reduce() of empty iterable with no initial value")
+        for x in items:
+            acc = self.call(f, [acc, x], {})
+        return acc
+
     def _lib_error(self, ex: MGraphError) -> Exception:
         if ex.kind == "Unsupported":
             return Unsupported(f"graph library: {ex.msg}")
-        return PyExc(ex.kind, ex.msg, "igraph")
+        return PyExc(ex.kind, ex.msg, f"{self.cur[0]}:{self.cur[1]} (graph library)")
 
-    def call_func(self, f: Func, args: list[Any], kwargs: dict[str, Any]) -> Any:
+    def call_func(self, f: Func, args: list[Any], kwargs: dict[str, Any], parent: Env | None = None) -> Any:
         self.depth += 1
         if self.depth > 60:
             raise Unsupported("call depth")
@@ -348,7 +380,7 @@ class Interp:
                 loc[fn.args.vararg.arg] = tuple(args[len(params):])
             if fn.args.kwarg:
                 loc[fn.args.kwarg.arg] = {k: v for k, v in kwargs.items() if k not in params}
-            env = Env(f.mod, loc, f)
+            env = Env(f.mod, loc, f, parent)
             if self._is_generator(fn):
                 # generator functions are run eagerly; the values they yield are handed out by an iterator afterwards (the
                 # repository's generators have no side effects that a consumer could observe in between)
@@ -390,6 +422,7 @@ class Interp:
             self.exec_stmt(st, env)
 
     def exec_stmt(self, st: ast.stmt, env: Env) -> None:
+        self.cur = (env.func.short if env.func else "?", getattr(st, "lineno", 0))
         self.steps += 1
         if self.steps > self.max_steps:
             raise Unsupported("step budget exhausted")
@@ -579,8 +612,10 @@ class Interp:
                         self.call_func(self.repo.find_method(cm.cls, "__exit__"), [cm, None, None, None], {})  # type: ignore[arg-type]
                     elif hasattr(cm, "__exit__") and not isinstance(cm, _External):
                         cm.__exit__(None, None, None)
-        elif isinstance(st, (ast.FunctionDef, ast.ClassDef)):
-            raise Unsupported("nested definition")
+        elif isinstance(st, ast.FunctionDef):
+            env.locals[st.name] = Closure(Func(env.mod, None, st), env)
+        elif isinstance(st, ast.ClassDef):
+            raise Unsupported("nested class definition")
         else:
             raise Unsupported(f"statement {type(st).__name__}")
 
@@ -674,6 +709,11 @@ class Interp:
     def ev_Name(self, e: ast.Name, env: Env) -> Any:
         if e.id in env.locals:
             return env.locals[e.id]
+        p = env.parent
+        while p is not None:
+            if e.id in p.locals:
+                return p.locals[e.id]
+            p = p.parent
         return self.global_name(env.mod, e.id)
 
     def global_name(self, mod: Mod, name: str) -> Any:
@@ -742,7 +782,7 @@ class Interp:
         return self.getattr_(o, e.attr)
 
     def getattr_(self, o: Any, attr: str) -> Any:
-        if isinstance(o, (MGraph, MVertex, MEdge, _MSeq)):
+        if isinstance(o, (MGraph, MVertex, MEdge, _MSeq, NativeObj, re.Pattern, re.Match, PurePath)):
             try:
                 return getattr(o, attr)
             except MGraphError as ex:
@@ -876,11 +916,18 @@ class Interp:
                 kwargs[k.arg] = self.eval(k.value, env)
         if fv is _BUILTINS["isinstance"]:
             return self.isinstance_(args[0], args[1])
+        if fv is _BUILTINS["open"] and "open" in self.natives:
+            return self.natives["open"](*args, **kwargs)
         if isinstance(fv, _External):
             if fv.name.split(".")[-1] in ("getLogger",):
                 return _External("logger")
             if fv.name.startswith("logger") or fv.name.startswith("logging"):
                 return None
+            if fv.name in self.natives:
+                try:
+                    return self.natives[fv.name](*args, **kwargs)
+                except MGraphError as ex:
+                    raise self._lib_error(ex)
             if fv.name in _STDLIB_FUNCS:
                 return _STDLIB_FUNCS[fv.name](*args, **kwargs)
             raise Unsupported(f"external call {fv.name}")
@@ -994,6 +1041,8 @@ class Interp:
             return f"<class '{v.cls.qual}'>"
         if isinstance(v, (MVertex, MEdge, MGraph)):
             return repr(v)
+        if isinstance(v, PurePath):
+            return str(v)
         if isinstance(v, (list, tuple)):
             inner = ", ".join(self.repr_strict(x) for x in v)
             return f"[{inner}]" if isinstance(v, list) else (f"({inner},)" if len(v) == 1 else f"({inner})")
@@ -1152,7 +1201,21 @@ class Interp:
         return self._comp(e.elt, e.generators, env)
 
     def ev_GeneratorExp(self, e: ast.GeneratorExp, env: Env) -> Any:
-        return self._comp(e.elt, e.generators, env)
+        # lazy, as in the language: elements after the one a consumer stops at are never evaluated
+        sub = Env(env.mod, dict(env.locals), env.func)
+        first_iter = self.iterate(self.eval(e.generators[0].iter, env))
+
+        def gen(i: int = 0) -> Any:
+            g = e.generators[i]
+            items = first_iter if i == 0 else self.iterate(self.eval(g.iter, sub))
+            for item in items:
+                self.assign(g.target, item, sub)
+                if all(self.truth(self.eval(c, sub)) for c in g.ifs):
+                    if i + 1 == len(e.generators):
+                        yield self.eval(e.elt, sub)
+                    else:
+                        yield from gen(i + 1)
+        return gen()
 
     def ev_SetComp(self, e: ast.SetComp, env: Env) -> Any:
         return set(self._comp(e.elt, e.generators, env))
@@ -1184,7 +1247,7 @@ class Interp:
         params = [a.arg for a in e.args.args]
 
         def fn(*args: Any) -> Any:
-            sub = Env(env.mod, dict(env.locals), env.func)
+            sub = Env(env.mod, {}, env.func, env)
             for p, a in zip(params, args):
                 sub.locals[p] = a
             return self.eval(e.body, sub)
@@ -1372,7 +1435,11 @@ def _consume(it: Any = (), maxlen: Any = None) -> Any:
 
 # pure standard-library callables whose semantics are fixed by the language, not by the repository
 _STDLIB_FUNCS: dict[str, Any] = {"itertools.takewhile": lambda f, it: list(itertools.takewhile(f, it)), "itertools.count": itertools.count,
-                                 "itertools.chain": lambda *a: list(itertools.chain(*a)), "collections.deque": _consume, "deque": _consume, "igraph.Graph": MGraph, "copy.deepcopy": lambda v, memo=None: _deepcopy(v), "copy.copy": _shallowcopy,
+                                 "itertools.chain": lambda *a: list(itertools.chain(*a)), "collections.deque": _consume, "deque": _consume, "igraph.Graph": MGraph, "itertools.combinations": lambda it, r: list(itertools.combinations(it, r)),
+                                 "itertools.permutations": lambda it, r=None: list(itertools.permutations(it, r)),
+                                 "itertools.product": lambda *a, **k: list(itertools.product(*a, **k)),
+                                 "itertools.zip_longest": lambda *a, **k: list(itertools.zip_longest(*a, **k)),
+                                 "operator.iconcat": operator.iconcat, "operator.add": operator.add, "operator.concat": operator.concat, "copy.deepcopy": lambda v, memo=None: _deepcopy(v), "copy.copy": _shallowcopy,
                                  "antlr4.ParserRuleContext": lambda *a: ACtx("_empty"), "antlr4.ParserRuleContext.ParserRuleContext": lambda *a: ACtx("_empty")}
 
 def _b_iter(x: Any) -> Any:
@@ -1381,7 +1448,12 @@ def _b_iter(x: Any) -> Any:
     return _AIter(list(x))
 
 
+def _b_open(*a: Any, **k: Any) -> Any:
+    raise Unsupported("open() without a virtual file system")
+
+
 _BUILTINS: dict[str, Any] = {
+    "open": _b_open,
     "next": next,
     "iter": _b_iter,
     "sum": sum,
